@@ -1,30 +1,50 @@
-(* Model of gin/utils.py:augment_exception_message_and_reraise (21-44) and of the
-   `except Exception` filters (utils.py:59, config.py:1608): what the caller reads on
-   the object it catches.  An attribute of the original is either backed by a
-   type-level data descriptor (C slot / __slots__: found on the proxy object itself,
-   BEFORE __getattr__ is consulted) or lives in the instance dict (not found on the
-   freshly constructed proxy, hence forwarded by __getattr__ to the original).
-   The per-class slot table and what a freshly constructed proxy holds in each slot
-   are measured by the harness.  Definitions only. *)
+(* Model of gin/utils.py:augment_exception_message_and_reraise and of the `except Exception`
+   filters (utils.py try_with_location, config.py gin_wrapper): what the caller reads on the object
+   it catches.  Python's attribute lookup on the proxy object, in order:
+     1. a data descriptor on the type (C slot / __slots__): the PROXY'S OWN slot is read;
+     2. the proxy's instance dict;
+     3. any other class-level attribute (plain class variable, non-data descriptor);
+     4. __getattr__, which forwards to the original.
+   So an attribute of the original is read the same on the proxy when
+     - slot-backed: the slot was copied (repair 1) or the freshly constructed proxy happens to hold the same value;
+     - held in the instance dict with NO class-level attribute of that name: step 4 forwards it;
+     - held in the instance dict and SHADOWING a class-level attribute: only if the instance dict was copied onto
+       the proxy (repair 2), otherwise step 3 answers with the class-level default;
+     - class-level only: step 3, same class, same value.
+   The proxy object is built by the class's own constructor from the original's args, else without arguments, else
+   (repair 3) by the __new__ of the first base that does not define one in Python.
+   The per-class attribute table and which constructions succeed are measured by the harness.  Definitions only. *)
 From Coq Require Import List String ZArith Bool.
 From GinV Require Import Lib.Out.
 Import ListNotations.
 Open Scope string_scope.
 Open Scope list_scope.
 
-(* (attribute name, is slot-backed, the proxy's own slot already equals the original's value) *)
-Definition attr := (string * bool * bool)%type.
+Inductive akind :=
+| ASlot (fresh_equal : bool)     (* type-level data descriptor; does the fresh proxy's slot already equal the original's? *)
+| ADict                          (* instance dict only *)
+| ADictShadow                    (* instance dict entry shadowing a class-level attribute with another value *)
+| AClass.                        (* class-level only *)
+Definition attr := (string * akind)%type.
 
-(* repaired code: slot-backed attributes are copied from the original onto the proxy *)
-Definition reads_same (repaired : bool) (a : attr) : bool :=
-  let '(_, slot, fresh_equal) := a in
-  if slot then (repaired || fresh_equal) else true.
+Record repairs : Type := { r_slots : bool; r_dict : bool; r_new : bool }.
+Definition current : repairs := {| r_slots := true; r_dict := true; r_new := true |}.
 
-Definition run_gen (repaired : bool) (p : bool * bool * list attr) : out :=
-  let '(is_exception, constructible, attrs) := p in
+Definition reads_same (r : repairs) (a : attr) : bool :=
+  match snd a with
+  | ASlot fresh_equal => r_slots r || fresh_equal
+  | ADict => true
+  | ADictShadow => r_dict r
+  | AClass => true
+  end.
+
+(* can the proxy object be built at all *)
+Definition constructed (r : repairs) (from_args from_nothing : bool) : bool := from_args || from_nothing || r_new r.
+
+Definition run_gen (r : repairs) (p : bool * (bool * bool) * list attr) : out :=
+  let '(is_exception, (from_args, from_nothing), attrs) := p in
   if negb is_exception then OT "PassThrough" []
-  else if negb constructible && negb repaired then OT "ClassLost" [OS "TypeError"]
-  else OT "Proxy" [OL (map (fun a => OL [OS (fst (fst a)); OB (reads_same repaired a)]) attrs)].
+  else if negb (constructed r from_args from_nothing) then OT "ClassLost" [OS "TypeError"]
+  else OT "Proxy" [OL (map (fun a => OL [OS (fst a); OB (reads_same r a)]) attrs)].
 
-Definition run := run_gen true.
-Definition run_orig := run_gen false.
+Definition run := run_gen current.
